@@ -762,6 +762,10 @@ def dump_one(f: TextIO, data: IOData):
     if "cm5" in data.atcharges:
         _dump_real_arrays("Type 7 Charges", data.atcharges["cm5"], f)
 
+    # write frozen atoms (-2 is frozen, -1 is free, as recognized by load_one)
+    if data.atfrozen is not None:
+        _dump_integer_arrays("MicOpt", np.where(data.atfrozen, -2, -1), f)
+
     # write atomic gradient
     if data.atgradient is not None:
         _dump_real_arrays("Cartesian Gradient", data.atgradient.flatten(), f)
